@@ -1,7 +1,6 @@
 package main
 
 import (
-	"bytes"
 	"encoding/binary"
 	"os"
 	"path/filepath"
@@ -21,9 +20,9 @@ const (
 	contR = "=RRRRRRR"
 )
 
-// p1Trees: names {a,b,c} (quick: {a,b,c} as well — the family is cheap), per-name
-// state in {absent, file P, file Q, file R}.
-func p1Trees(quick bool) []wh.Build {
+// p1Trees: names {a,b,c}, per-name state in {absent, file P, file Q, file R}
+// (both tiers: the family is cheap).
+func p1Trees() []wh.Build {
 	names := []string{"a", "b", "c"}
 	states := []string{"", contP, contQ, contR}
 	var out []wh.Build
@@ -53,7 +52,7 @@ func p1Trees(quick bool) []wh.Build {
 
 // p2Trees: names {a,b}, per-name state in {absent, file P, file Q, symlink->a,
 // symlink->b, dir{}, dir{c:P}, dir{c:Q}}.
-func p2Trees(quick bool) []wh.Build {
+func p2Trees() []wh.Build {
 	names := []string{"a", "b"}
 	const nStates = 8
 	entry := func(name string, st int) []wh.Entry {
@@ -166,7 +165,7 @@ func stageHasSkip(stage string) bool {
 					skip = true
 				}
 			case overlay.OverlayOp_FRESH:
-				if len(bytes.TrimRight(op.Data, "")) > 0 {
+				if len(op.Data) > 0 {
 					fresh = true
 				}
 			}
